@@ -204,6 +204,56 @@ def check(assertions, timeout_ms=20000, want_model=False, portfolio=True):
     return 'unknown', reason, time.time() - t0
 
 
+_SYM_MEMO = {}
+
+
+def symbols(t):
+    """Names of the uninterpreted constants/functions occurring in a term."""
+    k = t.get_id()
+    m = _SYM_MEMO.get(k)
+    if m is not None:
+        return m[1]
+    out = set()
+    stack = [t]
+    seen = set()
+    while stack:
+        e = stack.pop()
+        i = e.get_id()
+        if i in seen:
+            continue
+        seen.add(i)
+        if z3.is_quantifier(e):
+            stack.append(e.body())
+        elif z3.is_app(e):
+            d = e.decl()
+            if d.kind() in (z3.Z3_OP_UNINTERPRETED, z3.Z3_OP_RECURSIVE):
+                out.add(d.name())
+            stack.extend(e.children())
+    _SYM_MEMO[k] = (t, out)
+    return out
+
+
+def cone(assertions, goal_terms):
+    """Cone-of-influence slice: the assertions connected to the goal through
+    shared uninterpreted symbols.  The dropped assertions share no symbol with
+    the slice, so (given a feasible path) slice-sat implies sat and slice-unsat
+    implies unsat."""
+    want = set()
+    for g in goal_terms:
+        want |= symbols(g)
+    syms = [symbols(a) for a in assertions]
+    used = [False] * len(assertions)
+    changed = True
+    while changed:
+        changed = False
+        for i, a in enumerate(assertions):
+            if not used[i] and (syms[i] & want):
+                used[i] = True
+                want |= syms[i]
+                changed = True
+    return [a for i, a in enumerate(assertions) if used[i]]
+
+
 def to_smt2(assertions):
     s = z3.Solver()
     for a in assertions:
